@@ -32,6 +32,8 @@ package netstate
 //@   opt safety [C19]
 
 //@ func (*Watcher).notify
+// completeness: every change of the batch, every interested mask and every channel is visited (no loop is left early)
+//@   opt exhaustive [C19]
 //@   ghost local att Int
 //@   ghost local expect Int
 //@   opt guarded m mu [C19]
@@ -53,6 +55,7 @@ package netstate
 // watchCleaned records that it ran: Watch must run it on every return path.
 //@ ghost var watchCleaned Bool
 //@ func (*Watcher).Watch$1
+//@   opt exhaustive [C19]
 //@   opt guarded m mu [C19]
 //@   opt capture CAP
 //@   requires CAP [C19]: w != nil
